@@ -398,3 +398,56 @@ Qed.
 
 Lemma generate_never_out_of_fuel s1 s2 : generate_property_patches s1 s2 <> OutOfFuel.
 Proof. apply gpp_aux_fuel. lia. Qed.
+
+(* ------------------------------------------------------------------ which names get a value *)
+Lemma pset_app name v acc acc' : pset name v acc = Some acc' -> acc' = acc ++ [(name, v)].
+Proof.
+  unfold pset. destruct (lookup_last name acc) as [pre|]; [destruct (beq pre v)|]; intros H; inversion H; reflexivity.
+Qed.
+
+Lemma gpp_aux_names fuel : forall s1 s2 acc acc',
+  gpp_aux fuel s1 s2 acc = Ok (acc', true) -> exists asg, acc' = acc ++ asg /\ map fst asg = names s1.
+Proof.
+  induction fuel as [|fuel IH]; intros s1 s2 acc acc' H; [discriminate|].
+  cbn [gpp_aux] in H.
+  destruct ((index DB s1 <? 0) || (len s2 <? index DB s1)); [discriminate|].
+  inv_bind H p1 Hp1. inv_bind H p2 Hp2.
+  destruct (beq p1 p2) eqn:Hb; simpl negb in H; cbv iota in H; [|discriminate].
+  destruct (index RB s1 <? index DB s1 + 2); [discriminate|].
+  inv_bind H t Ht.
+  destruct (index DB t <? 0) eqn:Hnext.
+  - destruct (len t <=? len s2 - index DB s1); [|discriminate].
+    inv_bind H sfx Hsfx.
+    destruct (beq t sfx) eqn:Hts; [|discriminate].
+    inv_bind H name Hname. inv_bind H v Hv.
+    destruct (pset name v acc) as [acc1|] eqn:Hset; [|discriminate]. inversion H; subst acc1; clear H.
+    destruct (name_slice_facts _ _ _ _ _ _ _ eq_refl Hp1 Hp2 Hb eq_refl Hname)
+      as (i & en & Ei & Ee & F & En).
+    destruct F as [Fdb Frb Fle Felen Filen Fpre].
+    apply slice_from_ok in Ht as (T1 & T2 & T3). rewrite Ee in T3.
+    replace (Z.to_nat (Z.of_nat en + 1)) with (S en) in T3 by lia.
+    apply Z.ltb_lt in Hnext. apply index_lt0 in Hnext.
+    exists [(name, v)]. split; [apply pset_app; exact Hset|].
+    simpl. rewrite (names_step s1 i en Fdb Frb Fle). rewrite <- T3, (names_no_db t Hnext), <- En. reflexivity.
+  - inv_bind H needle Hneedle. inv_bind H h Hh.
+    destruct (0 <? index needle h) eqn:Hm; [|discriminate].
+    inv_bind H name Hname. inv_bind H v Hv.
+    destruct (pset name v acc) as [acc1|] eqn:Hset; [|discriminate].
+    inv_bind H s1' Hs1'. inv_bind H s2' Hs2'.
+    destruct (IH s1' s2' acc1 acc' H) as (asg' & E' & N').
+    destruct (name_slice_facts _ _ _ _ _ _ _ eq_refl Hp1 Hp2 Hb eq_refl Hname)
+      as (i & en & Ei & Ee & F & En).
+    destruct F as [Fdb Frb Fle Felen Filen Fpre].
+    apply slice_from_ok in Hs1' as (T1 & T2 & T3). rewrite Ee in T3.
+    replace (Z.to_nat (Z.of_nat en + 1)) with (S en) in T3 by lia.
+    exists ((name, v) :: asg'). split.
+    + rewrite E', (pset_app _ _ _ _ Hset), <- app_assoc. reflexivity.
+    + simpl. rewrite (names_step s1 i en Fdb Frb Fle), <- T3, <- En, N'. reflexivity.
+Qed.
+
+Lemma generate_names s1 s2 ps :
+  generate_property_patches s1 s2 = Ok (ps, true) -> map fst ps = names s1.
+Proof.
+  unfold generate_property_patches. intros H. destruct (gpp_aux_names _ _ _ _ _ H) as (asg & E & N).
+  simpl in E. subst. exact N.
+Qed.
